@@ -363,6 +363,9 @@ func cmdCheck(args []string) int {
 			cfg.Params["thorough"] = 1
 			cfg.TimeBudgetS = 5400
 		}
+		if b, err := strconv.Atoi(os.Getenv("GOSMT_BUDGET_S")); err == nil && b > 0 {
+			cfg.TimeBudgetS = b // per-harness wall-clock budget override (exhaustion is reported as a reduced bound)
+		}
 		if hs.Tweak != nil {
 			hs.Tweak(cfg, *tier)
 		}
